@@ -4,7 +4,7 @@
    directives of our own. *)
 Require Extraction.
 Require Import ExtrOcamlBasic.
-Require Import NX.Base.Prelude NX.Model.PQ NX.Model.Sink.
+Require Import NX.Base.Prelude NX.Model.PQ NX.Model.Sink NX.Model.IPQ.
 Extraction Language OCaml.
 Set Extraction KeepSingleton.
 
@@ -12,4 +12,6 @@ Definition x_pq_run (ops : list (pq_op Z)) := pq_run pq_empty ops.
 Definition x_ebuf_run (cap : nat) (o : bool) (ops : list (sink_op Z)) := ebuf_run (ebuf_new cap o) ops.
 Definition x_eslot_run (o : bool) (ops : list (sink_op Z)) := eslot_run (eslot_new o) ops.
 
-Extraction "../ocaml/gen/nxmodel.ml" x_pq_run x_ebuf_run x_eslot_run.
+Definition x_ipq_run (ops : list (ipq_op Z)) := ipq_run (ipq_empty, []) ops.
+
+Extraction "../ocaml/gen/nxmodel.ml" x_pq_run x_ebuf_run x_eslot_run x_ipq_run.
